@@ -7,19 +7,19 @@ PROPS = [json.loads(l) for l in open(os.path.join(VERIF, "properties.jsonl"))]
 
 # property id -> (technique, level text, level note, design ref)
 CHECKS = {
- "C01": ("AST/CFG dataflow: def-use closure of recipients, dominating-guard truth tables (destination filter, range gates), dispatch exhaustiveness per message-type branch, store-effect scan on the forwarded header",
-         "All armed necessary conditions of the routing predicate hold on every path/site of forward_message/process_message in the current tree (recipient source, destination filter, range gates, pass-through, dispatch exhaustiveness, <=1 send per iteration, no double registration under arbitrary control frames, readiness poll over every connection, recipient collection narrowed only by the destination filter, header layout agnosticism). It is a structural decision over all paths of the code, not over all histories.",
+ "C01": ("AST/CFG dataflow: def-use closure of recipients, dominating-guard truth tables (destination filter, range gates), dispatch exhaustiveness per message-type branch, store-effect scan on the forwarded header; abstract interpretation of the manager's four subscription handlers over symbolic types (exhaustive state space, shared with C02-M) compared with the transition each control frame asks for",
+         "All armed necessary conditions of the routing predicate hold on every path/site of forward_message/process_message in the current tree (recipient source, destination filter, range gates, pass-through, dispatch exhaustiveness, <=1 send per iteration, no double registration and a subscription table that follows every control frame (arbitrary frames, exhaustive abstract space), readiness poll over every connection, recipient collection narrowed only by the destination filter, header layout agnosticism). It is a structural decision over all paths of the code, not over all histories.",
          "Decides the routing decision structure only; delivery over histories, OS readiness and payload sizes are runtime values and not decided. Assumes C02's index invariant for duplicate-freeness.", "DESIGN.md §2 C01"),
  "C05": ("who-may-call + must-precede/must-follow/count-on-paths over the CFG of the frame writers; transitive header-length/payload pairing over the call graph",
          "Ownership and ordering facts that make frames whole and sequence numbers contiguous hold at every site/path: sole socket writers, sendall header-then-payload, +1 exactly once stamped before the header write, declared length tied to the payload at every transitive call site, single thread of control.",
          "Trusts sendall/TCP; receiver types come from the repository's annotations.", "DESIGN.md §2 C05"),
- "C07": ("registration/erasure pairing discovered from container stores, must-follow on remove_module's CFG, who-may-call on close/send_client_close, funnel check of every departure detector (receive coverage through call chains); value-keyed index erasure under registration evidence; per-iteration liveness facts in delivery loops",
-         "Every container that registers a Module/socket is emptied by remove_module on every normal path; every departure detector funnels into remove_module exactly once; nothing else closes a client socket; exactly one CLIENT_CLOSED per removal; write-failure handlers keep the recipient loop going and no recipient removed earlier in the same delivery is written to; an index keyed by a client-chosen value is erased only on evidence that the departing module registered it.",
+ "C07": ("registration/erasure pairing discovered from container stores, must-follow on remove_module's CFG, who-may-call on close/send_client_close, funnel check of every departure detector (receive coverage through call chains); value-keyed index erasure under registration evidence; per-iteration liveness facts in delivery loops; must-precede of the recipient-set erasures before every publishing call (call-graph closure incl. the logging edge) in remove_module; ghost-marked path facts for the short-read exits",
+         "Every container that registers a Module/socket is emptied by remove_module on every normal path; every departure detector funnels into remove_module exactly once; nothing else closes a client socket; exactly one CLIENT_CLOSED per removal; write-failure handlers keep the recipient loop going and no recipient removed earlier in the same delivery is written to; an index keyed by a client-chosen value is erased only on evidence that the departing module registered it; remove_module publishes nothing (CLIENT_CLOSED, log records) before the module left subscriptions and logger_modules (re-entrancy past the idempotence guard).",
          "'Reusable immediately' as observed by a reconnecting client is timing and not decided; relies on C02-I3 (Module.subs is the inverse index).", "DESIGN.md §2 C07"),
  "C14": ("path classification of the per-subscriber loop with edge-filtered guard states; sibling agreement of write-failure handlers; exhaustiveness of the recursion guard against core_defs constants; guard facts on every exit of send_failed_message that bypasses the publication",
          "Every path through one subscriber iteration sends, reports or is ineligible; all write-failure handlers remove+report with the right arguments; not-ready loggers are waited for, only non-loggers dropped; the recursion guard covers FAILED_MESSAGE and every RTMA_LOG* constant found in core_defs; the notice carries recipient id and full header copy.",
          "Which sockets the OS reports writable is a runtime schedule and not decided.", "DESIGN.md §2 C14"),
- "C19": ("per-message-type branch extraction from guard states of process_message's CFG; count-on-paths of send_ack per branch; call-closure exclusion; who-may-call; store/dominance checks in send_ack",
+ "C19": ("per-message-type branch extraction from guard states of process_message's CFG; interprocedural count-on-paths of send_ack per branch (a handler acknowledging exactly once on each of its normal paths counts as one ack at its call site); call-closure exclusion; who-may-call; store/dominance checks in send_ack",
          "Exactly one send_ack(src) on every path of each subscription-control branch, exactly one iff connect_module(...) is truthy for the connect types, none in any other branch's call closure; addressing of the ACK; logger copy on every path; requester/logger overlap; client handshake order.",
          "Cross-module interleaving follows from C05-T single-threadedness and is not separately decided.", "DESIGN.md §2 C19"),
  "C06": ("swap detector over resolved call sites (argument/parameter binding), def-use flow of options into CONNECT fields and Module attributes, dominating-guard truth tables (integer theory) on connect_module, per-iteration back-edge guard facts of the uniqueness loop, interval check of the dynamic cursor",
@@ -34,34 +34,34 @@ CHECKS = {
  "C04": ("table agreement across sibling back ends (key sets, width/signedness through frozen target-language vocabularies and validators.py class constants), structural check of every field-walk loop, attribute-read agreement of sibling emitters, wiring of generate() loops; light taint of the unevaluated yaml expression text into back-end f-strings; path facts of MessageMeta's descriptor collection loop",
          "The native-type tables of the parser, its ctypes mapper and the four back ends agree on keys, width and signedness (157 comparisons); every struct/message generator walks <def>.fields once, in order, unfiltered; id/constant/hash emitters read the same attributes and every table is wired to its emitter; recorded size = sum of field sizes; emitted extents/values are the parser's evaluated numbers, never the yaml text; the Python metaclass lays out every descriptor in declaration order.",
          "sizeof/offsetof as laid out by a real C compiler and JS/MATLAB runtime representation need compiling generated output (execution) and are not decided; stand-in: C04-W + C11 + C16-A.", "DESIGN.md §2 C04"),
- "C09": ("MRO-resolved enumeration of validator classes; edge-filtered guard states (validate-before-write on every path, per write effect); reachability for atomicity; must-follow on the exceptional continuation of `yield`; who-may-write on the ContextVar; constant folding of the bounds table",
-         "Every write effect of every __set__/__setitem__ is reached only after validation of the same value, or with validation off, or via own-ctype/delegation; no write precedes a validation; validate_many quantifies over all elements (order statistics only after an all-int check); the disable block restores the flag on exceptional exit; single flag writer; bounds equal 2**bits arithmetic.",
+ "C09": ("MRO-resolved enumeration of validator classes; edge-filtered guard states (validate-before-write on every path, per write effect); reachability for atomicity; must-follow on the exceptional continuation of `yield`; who-may-write on the ContextVar (incl. the ExitStack callback idiom); constant folding of the bounds table; path facts at every sequence-to-scalar fold (int.from_bytes / [0])",
+         "Every write effect of every __set__/__setitem__ is reached only after validation of the same value, or with validation off, or via own-ctype/delegation; no write precedes a validation; validate_many quantifies over all elements (order statistics only after an all-int check); the disable block restores the flag on exceptional exit; single flag writer; bounds equal 2**bits arithmetic; bytes are folded into one integer only where their length is established to be 1.",
          "Read-back equality, nearest-float rounding and each numeric boundary are numerical results and not decided; ctypes' own slice-length/type checks are trusted.", "DESIGN.md §2 C09"),
- "C10": ("structural rules: result-expression grammar of copy(); dominating-guard truth table in Message.from_json; ordered case-list agreement between _to_dict and _from_dict",
-         "Decides only the clauses with a code-shape core: copies are built exclusively with from_buffer_copy; the JSON data decode is dominated by version == 0 or version == local hash; encoder and decoder classify field types by the same ordered tests, encoder-only cases being int-list producers.",
+ "C10": ("structural rules: result-expression grammar of copy() and type-resolved receiver of from_buffer_copy (class, not instance); dominating-guard truth table in Message.from_json; case-classification agreement between _to_dict and _from_dict from path facts; key-set agreement of to_dict/to_json with what from_json reads; sibling agreement (propositional equivalence) of the refusal predicates of validate_one and validate_many",
+         "Decides only the clauses with a code-shape core: copies are built exclusively with from_buffer_copy called on a structure class; whole-array validation refuses exactly what element validation refuses (so what a message can hold can be decoded back); the JSON data decode is dominated by version == 0 or version == local hash; encoder and decoder classify field types by the same ordered tests, encoder-only cases being int-list producers.",
          "The headline clause - bytes -> dict/JSON -> bytes is the identity for every value - is round-trip equality over values and is NOT decided by static analysis.", "DESIGN.md §2 C10, §3"),
  "C11": ("mutation scan of the field list in check_alignment, dominating guards of padding constructions, must-precede of validation before registration, guard facts at validate_msg_def's normal exits; abstract interpretation of check_alignment's current source over a family of field sequences complete for its control decisions (offset read only through ptr mod 8); thorough: independent natural-layout recomputation of every shipped definition",
-         "Padding only inserts self-built `char` fields and never reorders/resizes/drops user fields; every padding construction is dominated by auto_pad; every registered definition passed validate_msg_def, which rejects size > 65535 on every normal exit and runs check_alignment exactly under validate_alignment; C11-N: for every residue of the running offset mod 8 and every (alignment, element size, length) class of the next one or two fields, user fields land on their natural C offsets, only char padding is inserted, size and recorded alignment are the natural ones, and with auto_pad off a definition is accepted iff it needs no padding (1216 interpreted runs quick, ~17000 thorough).",
+         "Padding only inserts self-built `char` fields and never reorders/resizes/drops user fields; every padding construction is dominated by auto_pad; every registered definition passed validate_msg_def, which rejects size > 65535 on every normal exit and runs check_alignment exactly under validate_alignment; C11-N: for every residue of the running offset mod 8 and every (alignment, element size, length) class of the next one or two fields, user fields land on their natural C offsets, only char padding is inserted, size and recorded alignment are the natural ones (for struct and for message definitions as containers), and with auto_pad off a definition is accepted iff it needs no padding (1216 interpreted runs quick, ~17000 thorough).",
          "The arithmetic clause is decided by interpreting the function over a finite family shown complete for its decisions (argument in DESIGN §7.1 C11-N); that a C compiler produces the natural layout is trusted.", "DESIGN.md §2 C11, §3"),
  "C12": ("must-precede of check_duplicate_name / validator loops before every registry store (CFG), sibling agreement of namespace tuples, call-graph acceptance of indirect registrars, who-may-call parse_text, attribute-set agreement of __init__ and clear",
          "Every store into a shared name table is preceded on every path by a duplicate-name check over all five tables; every id registry store by its whole-registry duplicate loop and range test; reserved ranges are inclusive and fully registered; a file is recorded (resolved path) before parsing and parse_text is only reachable through parse_file; registries are per instance and cleared on failure.",
          "Symlink/case aliasing of import paths is filesystem semantics and not decided.", "DESIGN.md §2 C12"),
- "C13": ("backward information-flow closure of the sha256 argument to its roots (must-include / must-exclude), constructor-argument check, slice/decoration check of every hash emission site, edge-filtered guard states for the version stamp",
-         "The hashed text depends on exactly name, id and the in-order field name/type pairs at all three hashing sites; the stored digest is that digest; every back end prints hash[:8]; send_message stamps header.version before the header is sent on every path but the documented legacy one; version aliases the reserved wire field.",
+ "C13": ("backward information-flow closure of the sha256 argument to its roots (must-include / must-exclude), constructor-argument check, slice/decoration check of every hash emission site and of the name it is filed under (through helpers), edge-filtered guard states for the version stamp",
+         "The hashed text depends on exactly name, id and the in-order field name/type pairs at all three hashing sites; the stored digest is that digest; every back end prints hash[:8] under the definition's unrewritten name; send_message stamps header.version before the header is sent on every path but the documented legacy one; version aliases the reserved wire field.",
          "Collision-freeness of the 32-bit prefix is not claimed; sha256 and insertion-ordered dicts trusted.", "DESIGN.md §2 C13"),
  "C15": ("reference relation extracted from the front end vs emission order extracted from each generate() with frozen per-language eagerness; template lints of the JavaScript f-strings; return-annotation based branch type agreement; dispatch totality (through delegation); working-directory and once-only (resolved path) discipline of parse_file; reserved field names and descriptor constructor preconditions",
          "Every eager cross-section reference points to an earlier section (6 recorded known findings for Python/C/MATLAB); JS aliases are callables in the namespace fields read, namespaces exist before use, arrays are built per element; get_ctype_cls branches all yield ctypes types; every per-type dispatch covers the four kinds and raises otherwise.",
          "That generated text is accepted by CPython/gcc/node/MATLAB is execution of generated artefacts and not decided; the findings were confirmed once by running the real compiler (findings/c15_generated_outputs.py).", "DESIGN.md §2 C15"),
- "C16": ("usage-context classification of every nondeterminism-source call in parser/compile/back ends; section mirroring check in parse_text; exhaustive artefact agreement between shipped YAML (data) and shipped generated module (AST) with independent constant evaluator, sha256 recomputation and natural-layout calculator",
-         "No time/random/pid/cwd/absolute-path/id()/hash()/set-order value can reach emitted text; every parsed section is mirrored into the combined YAML (repeatable `_RESERVED_` merged); core_defs.py agrees with core_defs.yaml + imports on every constant, alias, id, type_def, recomputed type_hash, descriptor sequence and natural size (445 comparisons, exhaustive over the shipped files; thorough adds tests/ and examples/ pairs: 3060).",
+ "C16": ("usage-context classification of every nondeterminism-source call in parser/compile/back ends; section mirroring check in parse_text; exhaustive artefact agreement between shipped YAML (data) and shipped generated module (AST) with independent constant evaluator, sha256 recomputation and natural-layout calculator; who-may-write on the module-level tables of the parser and the back ends (through attribute / local aliases)",
+         "No module-level table survives a compile modified; no time/random/pid/cwd/absolute-path/id()/hash()/set-order value can reach emitted text; every parsed section is mirrored into the combined YAML (repeatable `_RESERVED_` merged); core_defs.py agrees with core_defs.yaml + imports on every constant, alias, id, type_def, recomputed type_hash, descriptor sequence and natural size (445 comparisons, exhaustive over the shipped files; thorough adds tests/ and examples/ pairs: 3060).",
          "Byte-identity of two real runs and the YAML emitter/loader round trip need execution and are not decided; black trusted deterministic.", "DESIGN.md §2 C16"),
- "C03": ("interprocedural taint from received header/payload fields, counter key sets and the connection count to partial primitives (recv size, fixed-array index, ASCII decode) with dominating-guard truth tables (integer theory); bottom-up may-mutate summaries over the call graph (incl. the logging -> send_message edge) against every loop over a manager container; receive-size bounds judged at the call sites of a receive helper; termination of receive-completion loops on a 0-byte result; typestate of removed modules in snapshot loops; handler coverage of socket sites",
+ "C03": ("interprocedural taint from received header/payload fields, counter key sets and the connection count to partial primitives (recv size, fixed-array index, ASCII decode) with dominating-guard truth tables (integer theory); bottom-up may-mutate summaries over the call graph (incl. the logging -> send_message edge) against every loop over a manager container; receive-size bounds judged at the call sites of a receive helper; termination of receive-completion loops on a 0-byte result; typestate of removed modules in snapshot loops; handler coverage of socket sites; lexical containment of the service loop in an unconditional disable_message_validation() block",
          "None of the enumerated crash channels into the uncaught region of run() is open: every client-controlled operand of a partial primitive is bounded by a dominating guard or handler, no loop over a live manager container can have it mutated by its own body and iterate again, snapshot loops re-establish liveness and remove_module is idempotent, every socket operation is covered by a removing ConnectionError handler.",
          "This is NOT 'the manager cannot crash': no sound may-raise analysis exists for Python; only the listed partial primitives and channels are decided. Seven defects found by these rules were repaired (known_findings.json, findings/c03_crash_channels.py).", "DESIGN.md §2 C03"),
  "C17": ("thread-role derivation from the Thread target over the call graph; who-may-access classification of the two buffers; evidence-edge reachability (staging only after `not is_set()` or a completed wait); per-iteration must-precede of the Event operations; structural finalisation order",
          "Decides the hand-off discipline of the double buffer (necessary conditions, each with the interleaving that breaks the property when the rule is broken): buffer ownership by role, fresh-list swap, staging only on evidence of a completed hand-off, stage+clear-finished before token, write before both signals, finished published before the token is released, append-before-flush under the selection guard, stop/finalise/close order of data sets and formatters.",
          "Exactly-once / in-order over ALL interleavings is a model-checking problem and is NOT decided by this family; file contents and quick-logger offset arithmetic are not decided.", "DESIGN.md §2 C17, §3"),
- "C18": ("who-may-write and dominating-guard checks on the counters; read-then-reset ordering with call-graph forwarding closure; abstract interpretation of send_traffic over symbolic (type, count) entries for table sizes around 0, K, 2K, 3K, with and without listeners; the exclusion mechanism (context manager + flag) is discovered from the code",
+ "C18": ("who-may-write and dominating-guard checks on the counters; read-then-reset ordering with call-graph forwarding closure; abstract interpretation of send_traffic over symbolic (type, count) entries for table sizes around 0, K, 2K, 3K, with and without listeners; the exclusion mechanism (context manager + flag, or explicit set/reset of the flag around the sends) and the counters' access paths (attribute or field of an interval object) are discovered from the code",
          "Counters are incremented only in forward_message, once, before any exit, never for statistics messages; cleared only by their reporter after the copy with nothing forwarded in between; the timing table stores every counted type and module; the sub-messages of one MESSAGE_TRAFFIC report list every entry exactly once with its own count (10 table sizes; the loop is periodic in the chunk size).",
          "uint16 saturation of counts and interval timing are values/time and not decided.", "DESIGN.md §2 C18"),
 }
